@@ -23,7 +23,7 @@ func (Engine) Info(prop string) core.Info {
 	case "C06":
 		return core.Info{
 			Level: "exploration",
-			Rule:  "one plan = one generated input (families: random, small alphabet, run-length, repetitive, long matches around the 60-byte limit, matches at the edge of the 2048-byte window, spaces/initial window, text, mixed; >0x8000 coded symbols for the tree rebuild; empty) with or without CRC header, compressed under 2-3 different partitions into Write calls (one call, single bytes, cuts at 59/60/61 and 2047/2048/2049, empty writes, random tapes) and read back with per-partition Read buffer tapes (1 byte ... larger than the output, zero-length reads) over an underlying reader that returns short and (0,nil) reads. The first run indices enumerate ALL strings up to a small length over 2-4 letter alphabets (exhaustive part; input generation only, no schedule in it beyond three fixed chunkings). About 15% of the generated plans are the separate fault arm (underlying writer fails/short-writes at byte k, underlying reader returns a non-EOF error at byte k); the strict oracle never runs on those. Non-trivial: a stream was produced and read back to io.EOF (strict arm) or the injected fault fired (fault arm). Distinct: distinct hash of the per-execution transcript (stream digest, every Write/Read result, Close results); at most 256 hashes are reported per plan.",
+			Rule:  "one plan = one generated input (families: random, small alphabet, run-length, repetitive, long matches around the 60-byte limit, matches at the edge of the 2048-byte window, spaces/initial window, text, mixed; >0x8000 coded symbols for the tree rebuild; empty) with or without CRC header, compressed under 2-3 different partitions into Write calls (one call, single bytes, cuts at 59/60/61 and 2047/2048/2049, empty writes, random tapes) and read back with per-partition Read buffer tapes (1 byte ... larger than the output, zero-length reads) over an underlying reader that returns short and (0,nil) reads. The first run indices enumerate ALL strings up to a small length over 2-4 letter alphabets (exhaustive part; input generation only, no schedule in it beyond three fixed chunkings). About 15% of the generated plans are the separate fault arm (underlying writer fails/short-writes at byte k, underlying reader returns a non-EOF error at byte k); the strict oracle never runs on those. Non-trivial: a stream was produced and read back to io.EOF (strict arm) or the injected fault fired (fault arm). Distinct: distinct hash of the per-execution transcript (stream digest, every Write/Read result, Close results); at most 256 hashes are reported per plan. 8 % of the mixed plans run 2-4 goroutines that each compress and read back their own input with their own Writer/Reader at the same time, with plan-driven pauses inside Write, Close and Read (yield injection, DESIGN 8.9); Reader.Close is called three times and its verdict must not change.",
 			Real:  realCode,
 			Stub:  []string{"underlying io.Writer (recording sink with failure/short-write injection)", "underlying io.Reader (chunk tape, (0,nil) reads, error injection)", "independent decoder ref/lzhuf as second judge of 'reproduces the input'"},
 			Assumptions: []string{"library runs on the Go 1.26.8 standard library, not 1.24.0", "input byte strings are generated (plain input generation); the simulated part is the chunking of Write/Read calls and the behaviour of the underlying reader/writer",
